@@ -948,6 +948,10 @@ def loop_element(interp, it, lid, st):
     if it.kind == "range" and it.extra is not None:
         lo, hi = it.extra
         return V("int", T("lv", lid), shape=(), labels=labels, extra=("index", lo, hi))
+    if it.kind == "count" and it.items is not None:
+        # itertools.count(start, step): start + step * (number of the iteration)
+        i = V("int", T("lv", lid), shape=(), labels=labels)
+        return binop(interp, "add", it.items[0], binop(interp, "mul", it.items[1], i, st, None), st, None)
     if it.kind == "enumerate":
         inner = it.items[0]
         i = V("int", T("lv", lid), shape=(), labels=labels, extra=("index", Dim(0), length_dim(interp, inner) or Dim.unknown("len")))
